@@ -114,7 +114,13 @@ impl<T: Qcow2IoOps> Qcow2Dev<T> {
             let mapping = self.get_mapping(start).await?;
 
             match mapping.source {
-                MappingSource::Zero | MappingSource::Unallocated | MappingSource::Backing => {}
+                MappingSource::Unallocated | MappingSource::Backing => {}
+                MappingSource::Zero => {
+                    // a zero cluster may keep a preallocated host cluster
+                    if let Some(off) = mapping.cluster_offset {
+                        Self::add_used_cluster_to_set(ranges, off >> self.info.cluster_bits());
+                    }
+                }
                 MappingSource::DataFile => {
                     if let Some(off) = mapping.cluster_offset {
                         allocated += 1;
